@@ -85,13 +85,14 @@ pub fn l1_components(cfg: Config) -> Vec<Comp> {
     out
 }
 
-pub const L1_CONTEXTS: usize = 4;
+pub const L1_CONTEXTS: usize = 5;
 
 pub fn l1_recipe(comp: &Comp, ctx: usize) -> Recipe {
     let items = match ctx {
         0 => vec![c(comp.clone())],
         1 => vec![t("Add "), c(comp.clone()), t(" and stir well.")],
         2 => vec![t("Mix the "), c(comp.clone())],
+        3 => vec![t("Añade é "), c(comp.clone()), t(" y más ñ")],
         _ => vec![c(comp.clone()), t(" then rest, wait")],
     };
     Recipe { blocks: vec![Block::Step(items)] }
@@ -101,7 +102,8 @@ pub fn l1_recipe(comp: &Comp, ctx: usize) -> Recipe {
 pub fn l2_alphabet(cfg: Config) -> Vec<Comp> {
     let mut v = Vec::new();
     if cfg.extended {
-        for name in ["a", "A", "b"] {
+        // same name in another case, ASCII and non-ASCII (simple and full case folding agree on è / È)
+        for name in ["a", "A", "b", "è", "È"] {
             for m in ["", "&", "-", "&-", "?", "+"] {
                 for q in [None, Some(2)] {
                     let mut x = Comp::new(Kind::Igr, name).mods(m);
@@ -112,7 +114,7 @@ pub fn l2_alphabet(cfg: Config) -> Vec<Comp> {
                 }
             }
         }
-        for name in ["p", "P"] {
+        for name in ["p", "P", "poêle", "POÊLE"] {
             for m in ["", "&", "-"] {
                 v.push(Comp::new(Kind::Cw, name).mods(m));
                 v.push(Comp::new(Kind::Cw, name).mods(m).qty(Val::Int(2), None));
